@@ -193,7 +193,11 @@ func genPattern(r *fw.Rand) string {
 }
 
 func genModel(r *fw.Rand) *policyModel {
-	m := &policyModel{DefAccept: r.Bool(), DefStore: r.Bool(), Max: []int{1, 2, 5}[r.Intn(3)]}
+	// Added after seeded change C05-13: the corner of the limit itself.  One configuration in eight has
+	// MaxRecipients=0 ("no transaction ever holds more than the configured maximum" then means: no
+	// RCPT is ever accepted, nothing is ever stored); 1, the smallest limit that admits anything, was
+	// generated before and keeps a quarter.  The model needs no special case: room = accepted < Max.
+	m := &policyModel{DefAccept: r.Bool(), DefStore: r.Bool(), Max: []int{0, 1, 1, 2, 2, 5, 5, 5}[r.Intn(8)]}
 	m.Accept, m.Reject, m.Store, m.Discard = pickList(r), pickList(r), pickList(r), pickList(r)
 	np := []int{0, 1, 2, 3, 6, 8}[r.Weighted([]int{6, 8, 6, 4, 2, 1})]
 	for j := 0; j < np; j++ {
